@@ -44,6 +44,13 @@ def lanes_cases(r, n):
         child = {"self_exit": None, "ignore_all": True} if mode == "timer" else dict(r.choice(CHILD_CLASSES[:5]))
         out.append({"id": 0, "lanes": True, "script": {"children": [child], "spawn_fail": [], "signal_fail": [], "kill_fail": []},
                     "ops": ops, "waiters": 1, "tail": 500})
+    # many high-lane controls behind one normal one (sent first): the high lane is emptied before the normal control runs, however long it is
+    for nhigh in (40, 70):
+        ops = [{"at": 10, "op": "run_async", "mark": 90, "dur": 30, "yield": True}, {"at": 20, "op": "raw", "ctrl": "SyncFunc", "prio": 0, "mark": 1, "yield": False}]
+        ops += [{"at": 20, "op": "raw", "ctrl": "SyncFunc", "prio": 1, "mark": 2 + k, "yield": False} for k in range(nhigh)]
+        ops[-1]["yield"] = True
+        out.append({"id": 0, "lanes": True, "monitor_only": "long-lanes", "script": {"children": [dict(CHILD_CLASSES[0])], "spawn_fail": [], "signal_fail": [], "kill_fail": []},
+                    "ops": ops, "waiters": 1, "tail": 500})
     return out
 
 
@@ -53,6 +60,10 @@ def monitor(case, o):
     out = []
     evs = parse_log(o)
     marks = [int(a[0]) for t, ev, a in evs if ev == "mark"]
+    if case.get("monitor_only") == "send-from-within":
+        if marks[:2] != [1, 500] or marks[2:] != sorted(marks[2:]):
+            out.append(("C10_priority_at_decision: a high / urgent control sent while normal controls were queued did not run before them", marks[:8]))
+        return out
     if case.get("monitor_only") == "depth":
         sent = [op["mark"] for op in case["ops"] if op["op"] in ("run", "run_async", "run_exit_wait")]
         for op in case["ops"]:
@@ -173,6 +184,14 @@ class C10(C04):
             ops += [{"at": 40, "op": "run_exit_wait", "mark": n + 1, "yield": False}, {"at": 40, "op": "run", "mark": n + 2, "yield": True}]
             extra.append({"id": 0, "monitor_only": "depth", "script": {"children": [{"self_exit": None, "ignore_all": True}], "spawn_fail": [], "signal_fail": [], "kill_fail": []},
                           "ops": ops, "waiters": 1, "tail": 1000})
+        # a function that itself sends a high / urgent control while later normal controls are already queued behind it: that control runs next
+        for prio in (1, 2):
+            for nlater in (1, 3, 20):
+                ops = [{"at": 20, "op": "run_send", "mark": 1, "then_mark": 500, "then_prio": prio, "yield": False}]
+                ops += [{"at": 20, "op": "run", "mark": 2 + k, "yield": False} for k in range(nlater)]
+                ops[-1]["yield"] = True
+                extra.append({"id": 0, "monitor_only": "send-from-within", "script": {"children": [dict(CHILD_CLASSES[0])], "spawn_fail": [], "signal_fail": [], "kill_fail": []},
+                              "ops": ops, "waiters": 1, "tail": 500})
         extra += lanes_cases(r, 48 if tier == "quick" and not deep else 480)
         c = job_check(self, "thorough" if deep else tier, seed, monitor, extra)
         if not c.errors:
